@@ -194,9 +194,16 @@ func TestVerif_C15(t *testing.T) {
 			nf = cfg.PreviewFrames + rng.Range(3, 8) // the threshold follows the background once the preview frames are over
 		}
 		stream := c15Stream(rng, cfg, nf, level)
+		ffcStated := 0
+		if idx%3 == 1 {
+			// the telemetry's FFC state word says "running" a frame or two before the reported FFC
+			// time moves (idx%6 == 4) or on every affected frame (idx%6 == 1); the rule is the 10 s one alone
+			ffcStated = paintFFCStates(stream, int(idx%6/3))
+		}
 		badAt := -1
 		c.Case(idx, func() interface{} { return detStreamDesc(cfg, stream, badAt)() }, func() {
 			sink := &c15Sink{}
+			c.Count("frames_with_ffc_state_running", int64(ffcStated))
 			if idx%4 == 0 {
 				// a failing StopRecording (at a reset, at the end of a recording) must not keep the
 				// background from being re-seeded
